@@ -712,7 +712,16 @@ def judge(c, obs, want):
             continue
         if exp.kind == "ok":
             if fr[0] != 0:
-                return ("step %d (%s): the operation failed with %s but succeeds on the owned model" % (si, op[:8], fr[:2])) if "model" in want else None
+                if "model" in want:
+                    return "step %d (%s): the operation failed with %s but succeeds on the owned model" % (si, op[:8], fr[:2])
+                if "atomic" in want and fr[0] == 1:
+                    # the implementation reports a failure the owned model does not foresee: whatever its reason, a failed
+                    # operation has to leave value and bytes as they were
+                    o.v = before
+                    why = _check_state(o, fr[2:], si, {"model", "canon"}, "after FAILED %s (must be untouched)" % op[:8])
+                    if why:
+                        return why
+                return None
             ne = fr[1]
             extra = fr[2:2 + ne]
             st = fr[2 + ne:]
